@@ -427,7 +427,7 @@ func genCodecCase(t *rapid.T) CodecCase {
 func TestC01_Random(t *testing.T) {
 	rec := evid.New("C01", "c01_random", "rapid: scripts of 1..40 typed items (13 kinds; scalar bit patterns from constants/single bits/uniform incl. NaN payloads; strings/binaries 0..300, 4080..4110, 8180..8210, 16383/16384/65535/65536/70000 bytes of non-UTF-8 pattern content; any type byte; container sizes 0..2^31-1) written by the in-place, appending (non-empty prefix) and stream writers (io.Writer-backed and bytes-backed) and read back by the buffer reader and by the stream reader under a generated source plan; non-trivial = a multi-byte item was split across >= 2 source reads")
 	defer rec.Flush()
-	runRapid(t, rec, "c01_codec_script", evid.Pick(25000, 60000), genCodecCase, checkCodec)
+	runRapid(t, rec, "c01_codec_script", evid.Pick(25000, 300000), genCodecCase, checkCodec)
 }
 
 // TestC01_Exhaustive enumerates complete small domains through all writers and readers.
